@@ -41,6 +41,7 @@ REPS_P1 = (
     + [("df", "float64", ik, "default") for ik in dets.INDEX_KINDS_EXTRA] + [("series", "int64", ik, "str") for ik in dets.INDEX_KINDS_EXTRA]
     # narrow and unsigned element types (the alphabet is exactly representable in all of them)
     + [(c, dt, "range", "default") for c in ("nd2", "df") for dt in NARROW]
+    + [("df", "float64", "range", "offint"), ("df", "int64", "datetime", "offint")]
 )
 # scorers never look at the index: two index kinds suffice
 REPS_SCORER = [r for r in REPS_P1 if r[0].startswith("nd") or r[2] in ("range", "datetime")]
@@ -55,6 +56,8 @@ REPS_P2 = (
     + [("nd2", dt, "range", "default") for dt in ("float64", "int64")]
     + [("nd2F", "float64", "range", "default"), ("nd2F", "int64", "range", "default"), ("nd2S", "float64", "range", "default")]
     + [(c, dt, "range", "default") for c in ("nd2", "df") for dt in NARROW]
+    # integer column labels that are not the positions 0..p-1
+    + [("df", "float64", "range", "revint"), ("df", "int64", "datetime", "offint"), ("df", "float64", "offset", "offint")]
 )
 
 
@@ -80,8 +83,7 @@ def represent(X, rep, lo=0, hi=None, total=None):
     index = dets.make_index(ik, n)[lo:hi]
     if cont == "series":
         return pd.Series(vals[:, 0], index=index, name=None if cl == "default" else "s")
-    columns = list(range(p)) if cl == "default" else [f"v{chr(97 + j)}" for j in range(p)]
-    return pd.DataFrame(vals, index=index, columns=columns)
+    return pd.DataFrame(vals, index=index, columns=dets.column_labels(cl, p))
 
 
 CANON = ("df", "float64", "range", "default")
